@@ -366,6 +366,14 @@ func (w *world) motifExpiry(r *mrand.Rand, offIdx int, probeIdx int) {
 		if lockDuring {
 			w.m.Count("expiry_while_locked", 1)
 		}
+		if off.d == 0 && pn != "remove" {
+			// evidence only: what the implementation does at the exact instant (both readings are accepted)
+			if _, kept := w.model.Keys[string(k.blob)]; kept {
+				w.m.Count("expiry_at_exact_instant:kept", 1)
+			} else {
+				w.m.Count("expiry_at_exact_instant:reaped", 1)
+			}
+		}
 		// a second look one second later: whatever happened at the boundary, it is gone after it
 		if off.d <= 0 {
 			if w.do(hop{kind: kAdvance, d: time.Second + time.Duration(-off.d)}) {
